@@ -204,13 +204,12 @@ def correspondence(ctx, t, seed: int, n_graphs: int, n_mut: int):
         cached_before = eqcases.hash_cache_kinds(e)
         fresh_copy = pickle.loads(raw)
         hv = eqcases.hash_cache_kinds(fresh_copy)       # before anything hashes the copy
-        if hv:
-            ctx.violation(f"pickle-carries-hash-cache:{hv[0]}",
-                          f"right after unpickling, nodes of kinds {hv} carry the `_hash_value` cached by the "
-                          f"pickling process",
+        for kk in hv:
+            ctx.violation(f"pickle-carries-hash-cache:{kk}",
+                          f"right after unpickling, {kk} nodes carry the `_hash_value` cached by the pickling process",
                           {"case": per_graph[gi][0].recipe,
                            "note": "hash(e); p = pickle.loads(pickle.dumps(e)); '_hash_value' in vars(node of p)"})
-        elif b"_hash_value" in raw:
+        if not hv and b"_hash_value" in raw:
             # not a pytato node: some foreign object inside (recorded, judged by the hash checks)
             kk = next((eqterm.kind_of(n) for n in eqterm.all_nodes(e)
                        if b"_hash_value" in pickle.dumps(n)), eqterm.kind_of(e))
@@ -284,11 +283,11 @@ def cross_process(ctx, seed: int, n: int, pickles, per_graph, hash_seeds):
                    "expected_equal": expect_eq}
             ncase += 1
             bad = False
-            if res["hv_present"]:
+            for kk in res["hv_present"]:
                 bad = True
-                ctx.violation(f"pickle-carries-hash-cache:{res['hv_present'][0]}",
-                              f"after unpickling in a fresh interpreter (PYTHONHASHSEED={hs}) nodes of kinds "
-                              f"{res['hv_present']} already carry `_hash_value` from the pickling process", rep)
+                ctx.violation(f"pickle-carries-hash-cache:{kk}",
+                              f"after unpickling in a fresh interpreter (PYTHONHASHSEED={hs}) {kk} nodes already "
+                              f"carry `_hash_value` from the pickling process", rep)
             if any(isinstance(res[k], str) for k in ("eq", "eq_rev", "ne", "hash_eq", "in_set")):
                 bad = True
                 ctx.violation("pickle-xproc-raises", f"comparison raised in the child: {res}", rep)
@@ -315,10 +314,10 @@ def cross_process(ctx, seed: int, n: int, pickles, per_graph, hash_seeds):
             q = pickle.loads(ch["pickles"][gi])
             hv = eqcases.hash_cache_kinds(q)
             ob = eqcases.observe(e, q)
-            if hv:
+            for kk in hv:
                 bad = True
-                ctx.violation(f"pickle-carries-hash-cache:{hv[0]}",
-                              f"a graph pickled under hash seed {hs} arrives with `_hash_value` set", rep)
+                ctx.violation(f"pickle-carries-hash-cache:{kk}",
+                              f"a graph pickled under hash seed {hs} arrives with `_hash_value` set on {kk} nodes", rep)
             if ob["eq"] != expect_eq or ob["eq_rev"] != expect_eq:
                 bad = True
                 kk = eqcases.culprit(e, q, lambda x, y: (x == y) != expect_eq)
